@@ -25,3 +25,12 @@ Theorem C17_visit_events_are_nodes :
   = nodes_of digest V p.
 Proof. exact TravIter.visit_events_nodes. Qed.
 Print Assumptions C17_visit_events_are_nodes.
+
+(* the nesting protocol as a grammar (TravGrammar.page_events): page entry (flagged iff reached through a
+   high-page link), per key pre-visit / lower subtree / visit / post-visit, page exit, then the high page *)
+From MST Require Import TravGrammar.
+Theorem C17_nesting :
+  forall (digest V : Type) (p : page digest V) (hp : bool),
+  page_events digest V p hp (events digest V p hp).
+Proof. exact TravGrammar.events_obey_protocol. Qed.
+Print Assumptions C17_nesting.
